@@ -3,10 +3,15 @@ package main
 import (
 	"fmt"
 	"math"
+	"math/rand"
+	"strconv"
 	"strings"
+	"unsafe"
 
 	"github.com/paulmach/orb"
 	"github.com/paulmach/orb/clip"
+	"github.com/paulmach/orb/encoding/mvt"
+	"github.com/paulmach/orb/geojson"
 )
 
 func init() { register(&Prop{ID: "C08", Run: runC08, Gen: genC08}) }
@@ -46,6 +51,60 @@ func runC08(op string, in []string) string {
 				return "nil"
 			}
 			return gs(out)
+		case "layer": // <box> <L> (<k> <gval>^k)^L : (*mvt.Layer).Clip (one layer) / mvt.Layers.Clip (several)
+			box := rdBound(r)
+			layers := make(mvt.Layers, r.int())
+			origs := make([][]*geojson.Feature, len(layers))
+			id := 0
+			for i := range layers {
+				fs := make([]*geojson.Feature, r.int())
+				for j := range fs {
+					fs[j] = geojson.NewFeature(r.geom())
+					fs[j].ID = id
+					id++
+				}
+				origs[i] = fs
+				layers[i] = &mvt.Layer{Name: "l" + strconv.Itoa(i), Version: 2, Extent: 4096, Features: fs}
+			}
+			if len(layers) == 1 {
+				layers[0].Clip(box)
+			} else {
+				layers.Clip(box)
+			}
+			// per layer: the surviving features (identity + geometry), then the identities the cells
+			// [len, n) of the ORIGINAL backing array now hold, then a (same array) / m (moved)
+			var parts []string
+			for i, l := range layers {
+				o := origs[i]
+				sb := []string{strconv.Itoa(len(l.Features))}
+				for _, f := range l.Features {
+					sb = append(sb, strconv.Itoa(f.ID.(int)), gs(f.Geometry))
+				}
+				sb = append(sb, strconv.Itoa(len(o)-len(l.Features)))
+				for _, f := range o[len(l.Features):] {
+					sb = append(sb, strconv.Itoa(f.ID.(int)))
+				}
+				same := cap(l.Features) == cap(o) && len(l.Features) <= len(o)
+				if same && cap(o) > 0 {
+					same = unsafe.Pointer(&l.Features[:1][0]) == unsafe.Pointer(&o[:1][0])
+				}
+				// the cells [0, len) of the original array ARE the survivors (in-place compaction)
+				for j := range l.Features {
+					if same && o[j] != l.Features[j] {
+						same = false
+					}
+				}
+				if same {
+					sb = append(sb, "a")
+				} else {
+					sb = append(sb, "m")
+				}
+				parts = append(parts, strings.Join(sb, " "))
+			}
+			if len(parts) == 0 {
+				return "none"
+			}
+			return strings.Join(parts, " ")
 		case "cliph": // <box> <heap> <sgeom> : clip.Geometry on the caller's own memory (NOT a clone); lean/Orb/HeapOps.lean
 			box := rdBound(r)
 			arrays := rdHeap(r)
@@ -100,18 +159,330 @@ func genClosedRing(c *Ctx, mode int) orb.Ring {
 	return orb.Ring(ps)
 }
 
+// snap puts a coordinate on the grid of the mode (0 integer, 1 half-integer, 2 general position).
+func snap(mode int, v float64) float64 {
+	switch mode {
+	case 0:
+		return math.Round(v)
+	case 1:
+		return math.Round(v*2) / 2
+	}
+	return v
+}
+
+// genWrapRing draws closed rings that go AROUND the box without entering it, or only touch it: a frame
+// with a slit (narrow, or a whole side: a C), at inner margin mi >= 0 (0: the frame's inner edge runs along
+// the box boundary) and outer margin mo > mi; or a rectangle that shares an edge / a corner with the box.
+// Sutherland-Hodgman leaves zero-area rings along the box boundary for these.
+func genWrapRing(r *rand.Rand, mode int, x0, y0, x1, y1 float64) orb.Ring {
+	step := []float64{1, 0.5, 0.3}[mode]
+	var ps []orb.Point
+	transpose := r.Intn(2) == 0
+	if transpose {
+		x0, y0, x1, y1 = y0, x0, y1, x1
+	}
+	switch r.Intn(5) {
+	case 4: // inscribed: every vertex in the closed box, most of them ON its sides and corners ("unchanged")
+		n := 3 + r.Intn(5)
+		for i := 0; i < n; i++ {
+			x := snap(mode, x0+r.Float64()*(x1-x0))
+			y := snap(mode, y0+r.Float64()*(y1-y0))
+			switch r.Intn(6) {
+			case 0:
+				x = x0
+			case 1:
+				x = x1
+			case 2:
+				y = y0
+			case 3:
+				y = y1
+			case 4:
+				x, y = []float64{x0, x1}[r.Intn(2)], []float64{y0, y1}[r.Intn(2)]
+			}
+			if x < x0 || x > x1 {
+				x = x1
+			}
+			if y < y0 || y > y1 {
+				y = y1
+			}
+			ps = append(ps, orb.Point{x, y})
+		}
+	case 0: // rectangle sharing (part of) the right edge
+		d := step * float64(1+r.Intn(3))
+		a, b := y0-step*float64(r.Intn(3)), y1+step*float64(r.Intn(3))
+		if r.Intn(3) == 0 {
+			a = y0 + step
+			if a >= b {
+				a = y0
+			}
+		}
+		ps = []orb.Point{{x1, a}, {x1 + d, a}, {x1 + d, b}, {x1, b}}
+	case 1: // rectangle touching a corner only
+		d := step * float64(1+r.Intn(3))
+		ps = []orb.Point{{x1, y1}, {x1 + d, y1}, {x1 + d, y1 + d}, {x1, y1 + d}}
+	default: // frame with a slit in its top side
+		mi := step * float64(r.Intn(3))
+		if mode == 2 && mi > 0 {
+			mi = r.Float64()
+		}
+		mo := mi + step*float64(1+r.Intn(2))
+		a := x0 + step*float64(r.Intn(2))
+		b := a + step
+		if r.Intn(4) == 0 { // the whole top side is missing: a C
+			a, b = x0-mi, x1+mi
+		}
+		if b > x1+mi {
+			b = x1 + mi
+		}
+		ps = []orb.Point{{x0 - mo, y0 - mo}, {x1 + mo, y0 - mo}, {x1 + mo, y1 + mo}, {b, y1 + mo}, {b, y1 + mi},
+			{x1 + mi, y1 + mi}, {x1 + mi, y0 - mi}, {x0 - mi, y0 - mi}, {x0 - mi, y1 + mi}, {a, y1 + mi}, {a, y1 + mo}, {x0 - mo, y1 + mo}}
+	}
+	if r.Intn(2) == 0 { // mirror top <-> bottom
+		for i := range ps {
+			ps[i][1] = y0 + y1 - ps[i][1]
+		}
+	}
+	if transpose {
+		for i := range ps {
+			ps[i][0], ps[i][1] = ps[i][1], ps[i][0]
+		}
+	}
+	// start anywhere, either orientation, explicitly closed
+	k := r.Intn(len(ps))
+	ps = append(append([]orb.Point{}, ps[k:]...), ps[:k]...)
+	if r.Intn(2) == 0 {
+		for i, j := 0, len(ps)-1; i < j; i, j = i+1, j-1 {
+			ps[i], ps[j] = ps[j], ps[i]
+		}
+	}
+	return orb.Ring(append(ps, ps[0]))
+}
+
+// c08Box is the clip box of one iteration together with the generators positioned relative to it.
+type c08Box struct {
+	c              *Ctx
+	mode           int
+	x0, y0, x1, y1 float64
+	off            float64 // shift applied to genClosedRing's [0,7] window (boxes around the origin)
+}
+
+func (b *c08Box) ring() orb.Ring {
+	if b.c.Rng.Intn(6) == 0 {
+		return genWrapRing(b.c.Rng, b.mode, b.x0, b.y0, b.x1, b.y1)
+	}
+	rg := genClosedRing(b.c, b.mode)
+	if b.off != 0 {
+		for i := range rg {
+			rg[i][0] += b.off
+			rg[i][1] += b.off
+		}
+	}
+	return rg
+}
+
+// near draws a coordinate in the box grown by 1 or by 2 on every side.
+func (b *c08Box) near() orb.Point {
+	r := b.c.Rng
+	m := float64(1 + r.Intn(2))
+	return orb.Point{snap(b.mode, b.x0-m+r.Float64()*(b.x1-b.x0+2*m)), snap(b.mode, b.y0-m+r.Float64()*(b.y1-b.y0+2*m))}
+}
+
+func (b *c08Box) nearPts(max int) []orb.Point {
+	ps := make([]orb.Point, size(b.c.Rng, max))
+	for i := range ps {
+		ps[i] = b.near()
+	}
+	return ps
+}
+
+func (b *c08Box) polygon() orb.Polygon {
+	p := orb.Polygon{b.ring()}
+	for h := b.c.Rng.Intn(3); h > 0; h-- {
+		p = append(p, b.ring())
+	}
+	return p
+}
+
+// nearGeom draws a geometry of any kind whose members lie around the box (so that several members of a
+// collection survive), including the empty values whose Bound() is the emptyBound sentinel {(1,1),(-1,-1)}
+// and ill-formed / empty Bounds.
+func (b *c08Box) nearGeom(depth int) orb.Geometry {
+	r := b.c.Rng
+	k := r.Intn(11)
+	if k == 10 && depth >= 2 {
+		k = r.Intn(10)
+	}
+	switch k {
+	case 0:
+		return b.near()
+	case 1:
+		return orb.MultiPoint(b.nearPts(4))
+	case 2:
+		return orb.LineString(b.nearPts(5))
+	case 3:
+		m := make(orb.MultiLineString, size(r, 3))
+		for i := range m {
+			m[i] = orb.LineString(b.nearPts(4))
+		}
+		return m
+	case 4:
+		return b.ring()
+	case 5:
+		return b.polygon()
+	case 6:
+		m := make(orb.MultiPolygon, size(r, 3))
+		for i := range m {
+			m[i] = b.polygon()
+			if r.Intn(6) == 0 {
+				m[i] = orb.Polygon{} // Bound() of an empty polygon is the sentinel
+			}
+		}
+		return m
+	case 7:
+		p, q := b.near(), b.near()
+		if p[0] > q[0] {
+			p[0], q[0] = q[0], p[0]
+		}
+		if p[1] > q[1] {
+			p[1], q[1] = q[1], p[1]
+		}
+		switch r.Intn(8) {
+		case 0: // inverted on both axes
+			p, q = q, p
+		case 1: // inverted on one axis
+			p[0], q[0] = q[0], p[0]
+		case 2: // the package's empty sentinel
+			p, q = orb.Point{1, 1}, orb.Point{-1, -1}
+		case 3: // the zero value
+			p, q = orb.Point{}, orb.Point{}
+		}
+		return orb.Bound{Min: p, Max: q}
+	case 8: // an empty value: its Bound() is the sentinel, which a box around the origin intersects
+		switch r.Intn(7) {
+		case 0:
+			return orb.MultiPoint{}
+		case 1:
+			return orb.LineString{}
+		case 2:
+			return orb.MultiLineString{}
+		case 3:
+			return orb.Ring{}
+		case 4:
+			return orb.Polygon{}
+		case 5:
+			return orb.MultiPolygon{}
+		default:
+			return orb.Collection{}
+		}
+	case 9:
+		return b.polygon()
+	default:
+		c := make(orb.Collection, 1+r.Intn(4))
+		for i := range c {
+			c[i] = b.nearGeom(depth + 1)
+		}
+		return c
+	}
+}
+
+// the reviewers' witnesses, replayed at the head of every run (shard 0)
+var c08Fixed = []string{
+	// frame with a slit around [1,3]^2 at distance 0.5: a ring disjoint from the box
+	"ring 1 1 3 3 | 0 0 4 0 4 4 2.1 4 2.1 3.5 3.5 3.5 3.5 0.5 0.5 0.5 0.5 3.5 1.9 3.5 1.9 4 0 4 0 0 | 2 2",
+	"geom 1 1 3 3 PG 1 | 0 0 4 0 4 4 2.1 4 2.1 3.5 3.5 3.5 3.5 0.5 0.5 0.5 0.5 3.5 1.9 3.5 1.9 4 0 4 0 0",
+	// rectangle sharing the right edge of the box
+	"ring 1 1 3 3 | 3 1 5 1 5 3 3 3 3 1 | 2 2",
+	// empty Bound arguments
+	"geom -2 -2 2 2 B 1 1 -1 -1",
+	"geom 1 1 4 4 B 3 2 2 3",
+	// a hole that covers the box
+	"geom 1 1 3 3 PG 2 | 0 0 5 0 5 5 0 5 0 0 | 0.5 0.5 0.5 4 4 4 4 0.5 0.5 0.5",
+	// outer ring and hole adjacent in one buffer: buf[0:5], buf[5:10] (review item 2)
+	"cliph 1 1 3 3 1 | 2 -1 5 2 2 5 -1 2 2 -1 1.5 1.5 1.5 2.5 2.5 2.5 2.5 1.5 1.5 1.5 PG 2 0 0 5 10 0 5 5 5",
+	// empty values inside a box around the origin (the emptyBound sentinel passes the pre-test)
+	"geom -2 -2 2 2 C 3 PG 0 MP | B 0 0 0 0",
+	"layer -2 -2 2 2 1 4 P 5 5 P 0 0 nil P 1 1",
+}
+
+// fixedLine turns the readable form above (decimal coordinates, "|" before a vertex list whose count is
+// to be inserted) into protocol tokens.
+func fixedLine(s string) (op, in string) {
+	f := strings.Fields(s)
+	op = f[0]
+	var out []string
+	isNum := func(t string) bool { _, err := strconv.ParseFloat(t, 64); return err == nil }
+	i := 1
+	nbox := 4
+	for ; i < len(f) && nbox > 0; i, nbox = i+1, nbox-1 { // the box
+		v, _ := strconv.ParseFloat(f[i], 64)
+		out = append(out, fb(v))
+	}
+	for i < len(f) {
+		t := f[i]
+		switch {
+		case t == "|": // vertex list: count + coordinates
+			j := i + 1
+			for j < len(f) && isNum(f[j]) {
+				j++
+			}
+			out = append(out, strconv.Itoa((j-i-1)/2))
+			for _, c := range f[i+1 : j] {
+				v, _ := strconv.ParseFloat(c, 64)
+				out = append(out, fb(v))
+			}
+			i = j
+		case t == "P" || t == "B": // coordinates follow directly
+			n := 2
+			if t == "B" {
+				n = 4
+			}
+			out = append(out, t)
+			for _, c := range f[i+1 : i+1+n] {
+				v, _ := strconv.ParseFloat(c, 64)
+				out = append(out, fb(v))
+			}
+			i += 1 + n
+		default:
+			out = append(out, t)
+			i++
+		}
+	}
+	return op, strings.Join(out, " ")
+}
+
 func genC08(c *Ctx) {
 	r := c.Rng
+	if c.Mine(0) {
+		for _, s := range c08Fixed {
+			op, in := fixedLine(s)
+			if op == "cliph" { // heap: <A> then per array a vertex list; the header numbers are plain tokens
+				c.Case(op, in)
+				continue
+			}
+			c.Case(op, in)
+		}
+	}
 	for k := 0; k < c.Budget && !c.Exhausted(); k++ {
 		mode := r.Intn(3)
+		bx := &c08Box{c: c, mode: mode}
 		x0, y0 := float64(1+r.Intn(3)), float64(1+r.Intn(3))
 		x1, y1 := x0+float64(1+r.Intn(3)), y0+float64(1+r.Intn(3))
 		if mode == 2 && r.Intn(2) == 0 {
 			x0, y0 = r.Float64()*3, r.Float64()*3
 			x1, y1 = x0+0.5+r.Float64()*3, y0+0.5+r.Float64()*3
 		}
+		if r.Intn(4) == 0 { // a box around the origin: contains [-1,1]^2, so the emptyBound sentinel intersects it
+			bx.off = -4
+			x0, y0 = -float64(1+r.Intn(3)), -float64(1+r.Intn(3))
+			x1, y1 = float64(1+r.Intn(3)), float64(1+r.Intn(3))
+			if mode == 2 && r.Intn(2) == 0 {
+				x0, y0 = -1-r.Float64()*2, -1-r.Float64()*2
+				x1, y1 = 1+r.Float64()*2, 1+r.Float64()*2
+			}
+		}
+		bx.x0, bx.y0, bx.x1, bx.y1 = x0, y0, x1, y1
 		box := fmt.Sprintf("%s %s %s %s", fb(x0), fb(y0), fb(x1), fb(y1))
-		rg := genClosedRing(c, mode)
+		rg := bx.ring()
 		qs := make([]orb.Point, 12)
 		for i := range qs {
 			qs[i] = orb.Point{x0 + (x1-x0)*r.Float64(), y0 + (y1-y0)*r.Float64()}
@@ -130,58 +501,60 @@ func genC08(c *Ctx) {
 		}
 		// generic entry point over every kind
 		var g orb.Geometry
-		switch r.Intn(5) {
+		switch r.Intn(8) {
 		case 0:
-			p := orb.Polygon{genClosedRing(c, mode)}
-			for h := r.Intn(3); h > 0; h-- {
-				p = append(p, genClosedRing(c, mode))
-			}
-			g = p
+			g = bx.polygon()
 		case 1:
 			mp := orb.MultiPolygon{}
 			for h := r.Intn(3); h >= 0; h-- {
-				mp = append(mp, orb.Polygon{genClosedRing(c, mode)})
+				mp = append(mp, orb.Polygon{bx.ring()})
 			}
 			g = mp
+		case 2, 3: // members around the box, empty values, odd Bounds
+			g = bx.nearGeom(0)
+		case 4: // a collection whose members lie around the box, so that several survive
+			cl := make(orb.Collection, 2+r.Intn(3))
+			for i := range cl {
+				cl[i] = bx.nearGeom(1)
+			}
+			g = cl
 		default:
-			g = genGeom(r, GenOpts{Mode: []CoordMode{CoordSmallInt, CoordHalf, CoordModest}[mode], MaxPts: 6, MaxDepth: 2}, 0)
-		}
-		if strings.Contains(gs(g), "n") && false {
-			continue
+			g = genGeom(r, GenOpts{Mode: []CoordMode{CoordSmallInt, CoordHalf, CoordModest}[mode], MaxPts: 6, MaxDepth: 2, TopNil: true}, 0)
 		}
 		c.Case("geom", box+" "+gs(g))
+
+		// mvt: Layer.Clip / Layers.Clip compact the Features slice in place
+		if k%3 == 0 {
+			nl := 1 + r.Intn(2)
+			parts := []string{box, strconv.Itoa(nl)}
+			for i := 0; i < nl; i++ {
+				nf := size(r, 5)
+				parts = append(parts, strconv.Itoa(nf))
+				for j := 0; j < nf; j++ {
+					switch r.Intn(10) {
+					case 0:
+						parts = append(parts, "nil")
+					case 1:
+						parts = append(parts, []string{"nMP", "nLS", "nMLS", "nR", "nPG", "nMPG", "nC"}[r.Intn(7)])
+					default:
+						parts = append(parts, gs(bx.nearGeom(1)))
+					}
+				}
+			}
+			c.Case("layer", strings.Join(parts, " "))
+		}
 
 		// the same entry point on the caller's own memory, slices sharing backing arrays
 		hb := &heapBuilder{r: r,
 			content: func(kind string) []orb.Point {
 				switch kind {
 				case "R", "PG", "MPG":
-					return genClosedRing(c, mode)
+					return bx.ring()
 				}
 				// 0-d / 1-d members: vertices around the box so that lines are cut into several pieces
-				n := size(r, 6)
-				ps := make([]orb.Point, n)
-				for i := range ps {
-					ps[i] = orb.Point{r.Float64()*8 - 0.5, r.Float64()*8 - 0.5}
-					switch mode {
-					case 0:
-						ps[i] = orb.Point{math.Round(ps[i][0]), math.Round(ps[i][1])}
-					case 1:
-						ps[i] = orb.Point{math.Round(ps[i][0]*2) / 2, math.Round(ps[i][1]*2) / 2}
-					}
-				}
-				return ps
+				return bx.nearPts(6)
 			},
-			filler: func() orb.Point {
-				p := orb.Point{r.Float64()*8 - 0.5, r.Float64()*8 - 0.5}
-				switch mode {
-				case 0:
-					p = orb.Point{math.Round(p[0]), math.Round(p[1])}
-				case 1:
-					p = orb.Point{math.Round(p[0]*2) / 2, math.Round(p[1]*2) / 2}
-				}
-				return p
-			}}
+			filler: func() orb.Point { return bx.near() }}
 		c.Case("cliph", box+" "+hb.build(clipHKinds, r.Intn(4)))
 	}
 }
